@@ -232,6 +232,7 @@ func extractC19(c *ctxT) {
 	c.c19Flow(&sb)
 	c.c19Ack(&sb)
 	c.c19Parse(&sb)
+	c.c19RecvApp(&sb)
 	sb.WriteString("end FxVerif.Gen.C19\n")
 	c.write("C19.lean", sb.String())
 }
